@@ -46,13 +46,21 @@ htp_status_t bstr_builder_appendn(bstr_builder_t *bb, bstr *b) {
 htp_status_t bstr_builder_append_c(bstr_builder_t *bb, const char *cstr) {
     bstr *b = bstr_dup_c(cstr);
     if (b == NULL) return HTP_ERROR;
-    return htp_list_push(bb->pieces, b);
+    if (htp_list_push(bb->pieces, b) != HTP_OK) {
+        bstr_free(b);
+        return HTP_ERROR;
+    }
+    return HTP_OK;
 }
 
 htp_status_t bstr_builder_append_mem(bstr_builder_t *bb, const void *data, size_t len) {
     bstr *b = bstr_dup_mem(data, len);
     if (b == NULL) return HTP_ERROR;
-    return htp_list_push(bb->pieces, b);
+    if (htp_list_push(bb->pieces, b) != HTP_OK) {
+        bstr_free(b);
+        return HTP_ERROR;
+    }
+    return HTP_OK;
 }
 
 void bstr_builder_clear(bstr_builder_t *bb) {    
